@@ -29,6 +29,7 @@ EXTRA = {   # cross-property detectors worth running in addition to the defect's
     'C02-m5': ['C14'], 'C02-m6': ['C14'], 'C04-m5': ['C17'], 'C04-m6': ['C08'], 'C05-m6': ['C15'], 'C12-m5': ['C06'], 'C12-m6': ['C05', 'C17'],
     'C17-m5': ['C05', 'C06'], 'C17-m6': [],
     'C01-m6': ['C02', 'C13'], 'C10-m6': ['C08'], 'C14-m6': ['C02'], 'C15-m6': ['C04', 'C05'], 'C16-m6': ['C14'], 'C18-m6': [],
+    'C04-m8': ['C08'], 'C17-m8': [], 'C13-m8': [],
     'C03-m5': ['C17'], 'C03-m6': ['C06'], 'C07-m5': ['C08'], 'C09-m6': ['C01'], 'C11-m6': ['C03'], 'C13-m6': ['C17', 'C05'],
 }
 res_path = os.environ.get('SM_RESULTS') or os.path.join(SEEDED, 'RESULTS.json')   # SM_RESULTS: separate file for parallel instances (merge afterwards)
